@@ -17,3 +17,10 @@ PROP = {
         "'no earlier than T3' is the enabledness of the timer completion (now >= t_written + T3) in the model and a lower bound on measured elapsed time in the e2e runs; timer precision is runtime behaviour",
     ],
 }
+
+
+MANIFEST = {
+    "text": "Coq theorems over ALL runs of the send-core LTS (gate reads, register, write lock, write, timer, completion by registry channel / T3 / generation cancel / caller ctx, deregister; peer frames; the dispatcher's secondary/primary discrimination, reject routing and handler fan-out): every reply-expected send returns exactly one of its own secondary reply (same system bytes, sent by the peer, returned to no other call), a reject reason, T3 (enabled no earlier than T3 after the write), conn-closed, ctx error — never (nil, nil); each inbound data frame reaches exactly one waiter or every handler once in arrival order (a late duplicate may be absorbed); library-generated system bytes are pairwise distinct within any window of 2^32-1 draws; every exit path deregisters. The (nil, nil) defect was proved as a witness on the then-current step function and repaired in the code (fix af6ced9); the model keeps both step functions and the driver accepts a log iff one of them explains it. The SAME extracted monitor ok_C06 judges logs recorded from real connections against an adversarial single-goroutine peer (N in {1,2,8,64} senders); deterministic scenarios are compared for equality with the model.",
+    "note": 'T3 is an enabledness lower bound (timer precision is runtime). Atomicity granularity as in DESIGN Appendix A.2; session-id validation, decode-error handlers and autoS9F9 are off in the model.',
+    "technique": 'Rocq/Coq proof (inductive invariant over an executable LTS) + extracted monitor over e2e logs + deterministic scenario equality + hook differential',
+}
